@@ -10,7 +10,8 @@
    directly inside an `if`/`except` does not displace an existing member). *)
 From Coq Require Import List ZArith String Bool Arith.
 From Verif Require Import Lib.Sexp Model.C01_base Gen.C01_tables Gen.C01_dispatch Model.C01_visitor Model.C01_content Model.C01_raw
-  Model.C01_layout Proofs.C01_visitor Proofs.C01_vis Proofs.C01_content Proofs.C01_raw Proofs.C01_layout.
+  Model.C01_layout Model.C01_resolve Model.C01_ext Proofs.C01_visitor Proofs.C01_vis Proofs.C01_content Proofs.C01_raw
+  Proofs.C01_layout Proofs.C01_resolve Proofs.C01_ext.
 Import ListNotations.
 Open Scope string_scope. Open Scope list_scope. Open Scope nat_scope.
 
@@ -292,3 +293,47 @@ Theorem C01_source_dedent_only_blanks : forall ls,
   ((exists l, In l ls /\ is_blank l = false) -> exists l, In l ls /\ is_blank l = false /\ indent_of l = margin ls).
 Proof. exact dedent_only_blanks. Qed.
 Print Assumptions C01_source_dedent_only_blanks.
+
+(* ---------------------------------------------------------------------------------------------------------------
+   Which callable a decorator spelling denotes (Model/C01_resolve.v).  Statements may carry unresolved references
+   [DRef head rest]; [resolve_list] / [resolve_module] turn them into paths; every theorem above then speaks about the
+   resolved statements. *)
+
+(* The rule (Object.resolve from Visitor.current): a member of the current object wins; a module is the end of the
+   chain; from a class the enclosing class bodies are skipped ([env] = the scopes enclosing the nearest class); from an
+   __init__ function its class is consulted, and the class's own name resolves to the class. *)
+Theorem C01_resolution_rule : forall own up env h,
+  resolve_head own up env h =
+  match fkind own with
+  | InModule => scope_lookup own h
+  | InClass => orelse (scope_lookup own h) (env h)
+  | InInit => orelse (scope_lookup own h)
+                     (if String.eqb h (fname up) then Some (fpath up) else orelse (scope_lookup up h) (env h))
+  end.
+Proof. exact resolution_rule. Qed.
+Print Assumptions C01_resolution_rule.
+
+(* Resolution happens in the scope OF THAT MOMENT, for every statement list cut anywhere: the statements after the cut
+   are resolved against exactly the frames that the level semantics (= the visitor machine) has reached after the
+   resolved statements before the cut -- so one spelling may resolve differently at two places of a module (shadowed
+   in a class body, (re)bound later), and a memo keyed by the spelling is wrong. *)
+Theorem C01_decorators_resolved_in_scope : forall pre rest g pk follow own up env,
+  resolve_list g pk follow own up env (pre ++ rest) =
+  (let pre' := resolve_list g pk (next_doc rest follow) own up env pre in
+   let a := sem_list g pk (next_doc rest follow) pre' own up in
+   pre' ++ resolve_list g pk follow (l_own a) (l_up a) env rest).
+Proof. exact resolve_list_app. Qed.
+Print Assumptions C01_decorators_resolved_in_scope.
+
+(* ---------------------------------------------------------------------------------------------------------------
+   Extension containers with a history (Model/C01_ext.v): registrations ([HAdd]) and visits ([HVisit]) interleaved on
+   one container.  The visit that follows the prefix [pre] is announced to extension e completely, in order and once
+   (what e receives is exactly the visit's trace, which is well bracketed) iff e was registered initially or by an
+   `add` of the prefix -- however many visits the container had already served; otherwise e receives nothing of it. *)
+Theorem C01_history_announces_to_registered : forall pre m b post c e,
+  NoDup (c ++ adds pre) ->
+  exists log, nth_error (run_history c (pre ++ HVisit m b :: post)) (visits pre) = Some log /\
+    received e log = (if existsb (Nat.eqb e) (c ++ adds pre) then visit_events m b else []) /\
+    well_bracketed (visit_events m b) = true.
+Proof. exact history_announces_to_registered. Qed.
+Print Assumptions C01_history_announces_to_registered.
